@@ -5,10 +5,24 @@ Import ListNotations.
 From Goat Require Import Base.Explore Model.Client Check.ClientC Check.ClientSpec.
 Open Scope Z_scope.
 
-Inductive c09case := C09Step (c : ccase).
+Inductive c09case :=
+| C09Step (c : ccase)
+(* retry storm: calls in flight when the read failed, each retried once by its caller as soon as it failed *)
+| C09Storm (calls pending_at_quiescence successes : Z)
+(* a stream (and a unary call) in flight, the transport's Read fails with error value number [variant] after
+   [prefix] response envelopes and no trailer; [results]: what each later operation returned:
+   0 = a message / nil, 1 = io.EOF (the stream completed with status OK), 2 = an error, 3 = still pending,
+   4 = Header() returned the metadata that had arrived before the failure *)
+| C09Err (variant prefix : Z) (results : list Z).
 
 Definition check_c09 (c : c09case) : list nat :=
-  match c with C09Step cc => (if agrees cc then [] else [1%nat]) ++ reasons_in [3; 5; 6; 7; 8]%nat cc end.
+  match c with
+  | C09Step cc => (if agrees cc then [] else [1%nat]) ++ reasons_in [3; 5; 6; 7; 8]%nat cc
+  | C09Storm n pending succ => (if pending =? 0 then [] else [6%nat]) ++ (if succ =? 0 then [] else [5%nat])
+  | C09Err _ _ results =>
+      (if existsb (fun r => (r =? 0) || (r =? 1)) results then [5%nat] else []) ++
+      (if existsb (fun r => r =? 3) results then [6%nat] else [])
+  end.
 
 Fixpoint find_bad_from (i : nat) (cs : list c09case) : list (nat * list nat) :=
   match cs with
